@@ -37,7 +37,7 @@ def events_of(r, prog):
             out.append(("loss", e))
         elif k == "call" and e["callee"].endswith("BaseDerivative.simulate"):
             out.append(("simulate", e))
-        elif k == "list_append" and e.get("owner") == "history":
+        elif k == "list_append" and top.endswith("Hedger.fit"):  # the per-epoch record (whatever the list is called)
             out.append(("append", e))
         elif k == "with_enter":
             out.append(("grad{", e))
